@@ -30,6 +30,7 @@ def write(prop, tier: str, seed: int, campaigns: Dict[str, dict], wall_s: float,
             "runs": m["runs"], "requested": m["requested"], "skipped_not_comparable": m["skipped"],
             "nontrivial_runs": m["nontrivial"], "distinct_nontrivial": len(m["sigs"]),
             "wall_s": round(m["wall_s"], 2), "wall_capped": m["capped"], "steps": m["steps"],
+            "failing_runs": m.get("n_violating", 0),
         }
     fired = {k: v for k, v in sorted(counters.items()) if k.startswith("fault_fired")}
     probes = {k: v for k, v in sorted(counters.items()) if k.startswith("probe:")}
